@@ -43,6 +43,8 @@ PATTERNS = [
     (r"^\{py_capsule\} = PyCapsule_New\(\{cxx_var\}, \"\{PY_numpy_array_capsule_name\}\", \s*\{PY_capsule_destructor_function\}\);$", "H", 2),
     (r"^PyCapsule_SetContext\(\{py_capsule\},\s*\{PY_fetch_context_function\}\(\{capsule_order\}\)\);$", "H", 2),
     (r"^\{py_var\} = \{PY_to_object_idtor_func\}\(.*\{capsule_order\}\);$", "H", 3),
+    # release through the registered destructor (matches whatever was allocated)
+    (r"\{PY_release_memory_function\}\(\{capsule_order\}, \{cxx_var\}\);", "F", 9),
     (r"^\{py_var\} = PyCapsule_New\(\{cxx_var\}, NULL, NULL\);$", "N", 0),   # raw pointer pass-through
     # Fortran allocatable dummies / results: owned and released by the Fortran caller
     (r"^allocate\(", "N", 0),
@@ -124,6 +126,7 @@ def classify(line):
 
 def rows_for(lang, problems):
     rows = []
+    dealloc_flag = dealloc_capsule_registers()
     for tab, name, d in dump(lang):
         allocs, frees, fails, hand, dtor = [], [], [], [], []
         for clause, val in d.items():
@@ -157,7 +160,7 @@ def rows_for(lang, problems):
                             problems.append("%s %s %s.%s: allocation in a release clause: %r" % (lang, tab, name, clause, line))
                     elif clause in ROLE_FAIL:
                         if k == "F":
-                            fails.append(c)
+                            fails += [3, 4] if c == 9 else [c]
                         else:
                             problems.append("%s %s %s.%s: %s%d in a fail clause: %r" % (lang, tab, name, clause, k, c, line))
                     elif clause in ROLE_DTOR:
@@ -167,7 +170,7 @@ def rows_for(lang, problems):
                             problems.append("%s %s %s.%s: %s%d in a destructor: %r" % (lang, tab, name, clause, k, c, line))
                     elif clause in ROLE_OTHER:
                         if clause.endswith("dealloc_capsule"):
-                            continue    # read by no code in shroud/*.py (checked below)
+                            continue    # presence flag only, see dealloc_capsule_registers
                         if clause.startswith(("c_", "cxx_")) and clause.split("_", 1)[1] in (ROLE_ALLOC | ROLE_RELEASE | ROLE_FAIL):
                             continue    # language variants were already folded into the generic clause
                         problems.append("%s %s %s.%s: memory operation in a non-executable clause: %r" % (lang, tab, name, clause, line))
@@ -185,9 +188,12 @@ def rows_for(lang, problems):
             if 1 in hand and (d.get("destructor_name") or d.get("owner") == "caller"):
                 handover = 1
         else:
-            if alv and 2 in hand:
+            # wrapp registers a destructor for allocate_local_var blocks (allocate_memory) and for blocks
+            # that carry a <lang>_dealloc_capsule field (argument loop of wrap_function)
+            registered = alv or (dealloc_flag and bool(d.get(lang + "_dealloc_capsule")))
+            if registered and 2 in hand:
                 handover = 2
-            elif alv and 3 in hand:
+            elif registered and 3 in hand:
                 handover = 3
         if d.get("destructor_name") and not dtor:
             problems.append("%s %s %s: destructor_name without a destructor that frees" % (lang, tab, name))
@@ -198,15 +204,12 @@ def rows_for(lang, problems):
     return rows
 
 
-def dealloc_capsule_is_dead():
-    """`*_dealloc_capsule` statement fields: True when no code in shroud/*.py reads them"""
-    d = os.path.join(common.REPO, "shroud")
-    for f in os.listdir(d):
-        if f.endswith(".py"):
-            for ln in open(os.path.join(d, f)):
-                if "dealloc_capsule" in ln and not re.search(r"^\s*(c_|cxx_)dealloc_capsule=\[", ln):
-                    return False
-    return True
+def dealloc_capsule_registers():
+    """does wrapp.py register a destructor for a block that has a `<lang>_dealloc_capsule` field?
+    (the field's lines themselves are not used as code; its presence selects the registration)"""
+    src = open(os.path.join(common.REPO, "shroud", "wrapp.py")).read()
+    m = re.search(r'intent_blk\.get\(self\.language \+ "_dealloc_capsule"\)(.{0,900}?)update_code_blocks', src, re.S)
+    return bool(m and "fmt_arg.capsule_order = self.add_capsule_code(" in m.group(1))
 
 
 def nat_list(s):
@@ -261,8 +264,6 @@ def write_if_changed(path, text):
 def regenerate():
     problems = []
     rows = rows_for("c", problems) + rows_for("cxx", problems)
-    if not dealloc_capsule_is_dead():
-        problems.append("a *_dealloc_capsule statement field is read by code: the translator ignores it")
     if problems:
         raise Unclassified("\n".join(problems[:20]))
     text = render(rows)
